@@ -44,6 +44,7 @@ def required(tier):
         "filter.precedence.lr": 300,
         "filter.precedence.glr": 300,
         "filter.partial_marks.lr": 300,
+        "filter.rr_partial_marks.lr": 100,
         "completeness.reductions_checked": 5000,
         "completeness.shifts_checked": 1000,
         "cover._call_dynamic_filter": 8,
@@ -303,6 +304,7 @@ def one_table(ctx):
                     if kj == "ret" and uses2(vj):
                         ctx.violation("rejected-action-taken", case, "LR: the filter rejected every reduction of %s, the returned tree contains one" % victim2)
     partial_marks(ctx, rng, ops, exprs, grammar_text)
+    rr_partial_marks(ctx, rng)
     # --- precedence-encoding filter == static priorities == climbing --------------
     alld = {o: True for o in ops}
     text = grammar_text(rng, table, alld, alld, static=False, dynq=dynq)
@@ -401,6 +403,35 @@ def partial_marks(ctx, rng, ops, exprs, grammar_text):
                     ctx.violation("partial-marks-filter-lr-fails", case, "%s %s" % (k, str(v)[:200]))
                 elif norm(v) != want:
                     ctx.violation("partial-marks-filter-differs-from-static-priorities", case, "LR gives %s, precedence climbing %s" % (norm(v), want))
+
+
+RR_GRAMMAR = 'E: Pre bang | Post bang bang;\nPre: atom%s;\nPost: atom%s;\nterminals\natom: "n";\nbang: "!";'
+
+
+def rr_partial_marks(ctx, rng):
+    """A reduce/reduce conflict in which only one (or both) of the productions is marked
+    dynamic: the conflict counts as dynamically resolved, the LR parser constructs, and a filter
+    that always rejects one of the two reductions makes the parse follow the other."""
+    mark_pre, mark_post = rng.choice([(True, False), (False, True), (True, True)])
+    text = RR_GRAMMAR % (" {dynamic}" if mark_pre else "", " {dynamic}" if mark_post else "")
+    victim = "Pre" if mark_pre else "Post"
+    case0 = {"grammar": text, "filter": "rr-reject:" + victim, "parser": "LR"}
+    try:
+        f9 = Filter(lambda context, fs, ts, action, production, sub: not (action is REDUCE and production.symbol.name == victim))
+        lp = pgx.lr(pgx.grammar(text), dynamic_filter=f9, prefer_shifts=False, prefer_shifts_over_empty=False)
+    except Exception as e:  # noqa: BLE001
+        ctx.case((text, "rr-build"), True)
+        ctx.violation("dynamic-grammar-does-not-construct:" + type(e).__name__, case0, "the reduce/reduce conflict involves a dynamic production but the LR parser with a filter did not construct: %s" % str(e)[:200])
+        return
+    x = "n!" if victim == "Post" else "n!!"
+    want = ["n", "!"] if victim == "Post" else ["n", "!", "!"]
+    case = dict(case0, expr=x)
+    del f9.log[:]
+    k, v = pgx.outcome(lp.parse, x)
+    ctx.count("filter.rr_partial_marks.lr")
+    if discipline(ctx, case, f9.log, lp.grammar):
+        if k != "ret" or v != want:
+            ctx.violation("rr-filter-result", case, "rejecting every reduction of %s: %s %s, expected %s" % (victim, k, str(v)[:100], want))
 
 
 def discipline(ctx, case, log, pg):
